@@ -43,7 +43,12 @@ try:
         env = dict(os.environ, PYGQL_REPO=SR)
         for p in props:
             t = time.time()
-            r = sh(["/venv/bin/python", SV + "/harness/check.py", p, "--tier", "quick"], cwd=SV, env=env)
+            try:
+                r = sh(["/venv/bin/python", SV + "/harness/check.py", p, "--tier", "quick"], cwd=SV, env=env, timeout=420)
+            except subprocess.TimeoutExpired:
+                out[p] = {"exit": "timeout", "violation_lines": [], "summary": "check did not finish within 420 s (hang)", "signatures": []}
+                print(sid, p, "TIMEOUT")
+                continue
             lines = [l for l in r.stdout.splitlines() if l.startswith("VIOLATION")]
             summary = [l for l in r.stdout.splitlines() if not l.startswith("KNOWN-FINDING") and not l.startswith("VIOLATION")]
             out[p] = {"exit": r.returncode, "violation_lines": [l[:240].replace(SV, "/verif") for l in lines][:5],
